@@ -352,6 +352,31 @@ def prop_ledger(sh, case):
                     or got_o['cost_sum'] != total.reduce(convert.get_cost) or got_o['units_sum'] != total.reduce(convert.get_units):
                 fails.append(('inventories:homomorphism', f'{sel!r}: {got_o!r}'))
 
+    # ---- sibling aggregates over sub-select columns of one datatype (units / cost / weight side by side) ----------
+    inner2 = select_ir([(fn('units', P), 'u'), (fn('cost', P), 'c'), (['col', 'weight'], 'w'), (P, 'p')], sel)
+    U, C, W = ['col', 'u'], ['col', 'c'], ['col', 'w']
+    outer2 = bql.select([(fn('sum', U), 'su'), (fn('sum', C), 'sc'), (fn('sum', W), 'sw'), (fn('first', C), 'fc'), (fn('first', U), 'fu'),
+                         (fn('last', W), 'lw'), (fn('last', U), 'lu'), (fn('sum', ['col', 'p']), 'sp'), (fn('count', C), 'nc')],
+                        ('subq', inner2))
+    rs = query(conn, outer2)
+    if rs[0] != 'ok':
+        fails.append((exc_sig(rs[1], 'siblings:raises'), f'{sel!r}: {rs[1]!r}'))
+    elif rows:
+        got_s = dict(zip([d.name for d in rs[1]], rs[2][0])) if len(rs[2]) == 1 else None
+        if got_s is None:
+            fails.append(('siblings:not-one-row', repr(rs[2])))
+        else:
+            ps = [pos_of(p) for _, p in rows]
+            want_s = {'su': inv_of((convert.get_units(x) for x in ps), 'amount'), 'sc': inv_of((convert.get_cost(x) for x in ps), 'amount'),
+                      'sw': inv_of((convert.get_weight(p) for _, p in rows), 'amount'), 'fc': convert.get_cost(ps[0]),
+                      'fu': convert.get_units(ps[0]), 'lw': convert.get_weight(rows[-1][1]), 'lu': convert.get_units(ps[-1]),
+                      'sp': inv_of(ps), 'nc': len(ps)}
+            for k, w in want_s.items():
+                if got_s[k] != w:
+                    fails.append((f'siblings:{k}', f'{sel!r}: {k} = {got_s[k]!r}, want {w!r}'))
+                    break
+            sh.count('sibling_aggregates')
+
     # ---- running balance -----------------------------------------------------------------------------
     B = ['col', 'balance']
     inner = bql.select([(['col', 'account'], None)], ('table', 'postings'),
